@@ -56,6 +56,12 @@ def run(prop, tier, seed, replay):
             if os.path.exists(os.path.join(outdir, "specfail.txt")):
                 spec_fail += [(tag, l, outdir) for l in open(os.path.join(outdir, "specfail.txt")).read().split("\n") if l]
             dis += compare(v, outdir, tag, st)
+            if tag == "release" and st["driver_ok"]:
+                cok, cn, cmsg = vlib.canary(prop, "c17", os.path.join(outdir, "cases.txt"), tier=tier)
+                stats["canary_examples"] = cn
+                log("canary: " + cmsg)
+                if not cok:
+                    st["broken"].append(cmsg)
     # verdict
     for tag, line, outdir in spec_fail[:3]:
         cid = line.split()[0]
